@@ -287,7 +287,7 @@ func normURL(u string) string {
 
 // ------------------------------------------------------------------------------------------ C05
 
-var c05signers = []string{sIssuer, sDelegated, sDelegatedNoE, sClientCert, sClientBare, sStrangerEmb, sStrangerBare, sSibling, sLookalike, sLookalikeBare}
+var c05signers = []string{sIssuer, sDelegated, sDelegatedNoE, sDelegatedAny, sDelegatedOth, sDelegatedMix, sClientCert, sClientBare, sStrangerEmb, sStrangerBare, sSibling, sLookalike, sLookalikeBare}
 var c05respStatus = []ocsp.ResponseStatus{ocsp.Malformed, ocsp.InternalError, ocsp.TryLater, ocsp.SignatureRequired, ocsp.Unauthorized}
 
 func runC05(h *Harness) {
